@@ -59,10 +59,16 @@ def whitespace_comments(rng, name, raw):
 def encoding(rng, name, raw):
     root = etree.fromstring(raw)
     k = rng.random()
-    if k < 0.4: return etree.tostring(root, xml_declaration=True, encoding='UTF-16')
-    if k < 0.6: return etree.tostring(root, xml_declaration=False, encoding='UTF-8')
-    if k < 0.8: return etree.tostring(root, xml_declaration=True, encoding='UTF-8', standalone=False)
-    return etree.tostring(root, xml_declaration=True, encoding='ISO-8859-1')     # non-latin1 characters become character references
+    tail = rng.choice([b'', b'', b'\n', b'\r\n', b'\n  \n'])         # white space after the root element is not content
+    if k < 0.15: return etree.tostring(root, xml_declaration=True, encoding='UTF-16')
+    if k < 0.4:
+        # UTF-16 in either byte order with a byte-order mark, and a line end after the root element
+        text = '<?xml version="1.0" encoding="UTF-16"?>\n' + etree.tostring(root, encoding='unicode') + rng.choice(['', '\n', '\r\n', ' \n'])
+        return (b'\xfe\xff' + text.encode('utf-16-be')) if rng.random() < 0.6 else (b'\xff\xfe' + text.encode('utf-16-le'))
+    if k < 0.5: return b'\xef\xbb\xbf' + etree.tostring(root, xml_declaration=True, encoding='UTF-8', standalone=True) + tail      # UTF-8 with a byte-order mark
+    if k < 0.65: return etree.tostring(root, xml_declaration=False, encoding='UTF-8') + tail
+    if k < 0.8: return etree.tostring(root, xml_declaration=True, encoding='UTF-8', standalone=False) + tail
+    return etree.tostring(root, xml_declaration=True, encoding='ISO-8859-1') + tail     # non-latin1 characters become character references
 
 
 XML_REWRITES = [('strict-uris', strict), ('attribute-order', attr_order), ('whitespace-comments', whitespace_comments), ('encoding', encoding)]
@@ -86,6 +92,11 @@ def rewrite(rng, data):
     if rng.random() < 0.6: rng.shuffle(out); arch.append('member-order')
     if rng.random() < 0.5:
         out.append(('customXml/extra%d.xml' % rng.randint(0, 9), b'<x/>')); out.insert(0, ('zzz/unrelated.bin', b'\x00\x01PK\x03\x04')); arch.append('extra-members')
+        if rng.random() < 0.6:
+            # left-over members that no relationship refers to, stored where related ones usually are
+            out.append(('word/media/image9%d.png' % rng.randint(0, 9), b'\x89PNG left over')); out.append(('docProps/thumbnail.jpeg', b'\xff\xd8thumb'))
+            out.append(('word/header9.xml', b'<w:hdr xmlns:w="http://schemas.openxmlformats.org/wordprocessingml/2006/main"><w:p><w:r><w:t>orphan header</w:t></w:r></w:p></w:hdr>'))
+            arch.append('unreferenced-members-in-usual-places')
     b = io.BytesIO()
     comp = rng.choice(['stored', 'deflated', 'mixed'])
     with zipfile.ZipFile(b, 'w') as o:
